@@ -53,6 +53,42 @@ def binding():
     return bad
 
 
+CONC_BINDING = [
+    # (trace module, runner source, defines, name, scenario, mode args, field to corrupt (regex, replacement))
+    ("TraceCQ", "cq_run.cpp", [], "cq_run", "nq,nq|pa", ["rand", "7", "3"], r'"e":"en","t":(\d),"a":(\d+),"b":(\d+)', lambda m: '"e":"en","t":%s,"a":%s,"b":%d' % (m.group(1), m.group(2), int(m.group(3)) + 1)),
+    ("TraceCC", "cc_run.cpp", ["W_OBJ=0"], "cc_run_list", "2:a|r1", ["rand", "7", "3"], r'"e":"e","t":(\d),"op":"r","a":1,"r":1', lambda m: '"e":"e","t":%s,"op":"r","a":1,"r":0' % m.group(1)),
+]
+
+
+def conc_binding():
+    import concengine
+    wd = scratch("selftest-conc")
+    bad = 0
+    try:
+        for mod, src, defines, name, scenario, mode, pat, repl in CONC_BINDING:
+            exe = build(src, defines=defines, name=name)
+            tr = os.path.join(wd, "t.ndjson")
+            concengine.run_runner(exe, tr, scenario, mode)
+            ok, line, n, res = se.validate_trace(mod, tr, wd, "base")
+            text = open(tr).read()
+            if not ok or not re.search(pat, text):
+                print("selftest binding %s: base history not accepted or pattern not found (accepted=%s)" % (mod, ok))
+                bad += 1
+                continue
+            open(tr, "w").write(re.sub(pat, repl, text, count=1))
+            ok1, line1, _, _ = se.validate_trace(mod, tr, wd, "flip")
+            lines = text.splitlines(True)
+            k = next(i for i, ln in enumerate(lines) if re.search(pat, ln))
+            open(tr, "w").write("".join(lines[:k] + lines[k + 1:]))
+            ok2, line2, _, _ = se.validate_trace(mod, tr, wd, "drop")
+            print("selftest binding %s: accepted=%s, corrupted field rejected=%s (at %s), dropped record rejected=%s (at %s)" % (mod, ok, not ok1, line1, not ok2, line2))
+            if ok1 or ok2:
+                bad += 1
+    finally:
+        shutil.rmtree(wd, ignore_errors=True)
+    return bad
+
+
 OWNER = {"df8fc79": "C02", "9cce7cb": "C04", "a82e766": "C07", "735ca7b": "C15", "d849cb8": "C10", "a718cff": "C09", "ebdd107": "C09", "2ea1087": "C09",
          "0aa2fb3": "C14", "247ec96": "C14", "36ba745": "C12"}
 
@@ -136,6 +172,7 @@ def main(args):
     bad = 0
     if "binding" in what:
         bad += binding()
+        bad += conc_binding()
     if "reverts" in what:
         bad += reverts()
     if "seeds" in what:
